@@ -45,6 +45,9 @@ def run(ck):
     # a draw / dead-position shortcut taken at the root returns before anything is stored: no entry, no line, no report (C17's D1-D3)
     from .c17 import d1_d2_d3
     ck.run_rule(d1_d2_d3)
+    # a root window that excludes mate scores stores no root entry when every move is mated: no line, no report (C06's R8-R10)
+    from .c06 import r8_r10_driver
+    ck.run_rule(r8_r10_driver)
     for r in (h1_h2_h5_influence, h4_keys, h6_single_source, t1_key_check, t2_routing, t3_never_emptied, t4_eviction, i10_first_iteration, x3_poll_placement):
         ck.run_rule(r)
 
